@@ -19,6 +19,9 @@ func runC02(c *Ctx) {
 	ruleU1U2(c, "U1", "U2")
 	ruleAssignFootprint(c, "U2")
 	ruleU4(c, "U4")
+	r.Rule("U6", "relative update takes the first result of the right-hand side", 2)
+	ruleU6(c, "U6")
+	ruleL1(c, "L1", 20)
 	ruleR1(c, "R1", nil)
 }
 
@@ -128,6 +131,7 @@ func runC04(c *Ctx) {
 	ruleU1U2(c, "M3", "M3")
 	ruleM5(c, "M5")
 	ruleM6(c, "M6")
+	rulePF(c, "M7", 20)
 }
 
 func runC16(c *Ctx) {
